@@ -82,8 +82,20 @@ def _decider_post(a, res):
     if len(ADDED) != 1:
         return False
     n = ADDED[0]
+    # a wildcard (any / all) next to another signal — the value compared with or the value copied to the output — is flagged for
+    # wire separation (that signal must not be ranged over by the wildcard); no other decider is
+    md = n.debug_metadata
+    l, r, ov = a.left, a.right, a.output_value
+    flagged = md.get("needs_wire_separation") is True
+    if isinstance(l, SObj) and (isinstance(r, SObj) or isinstance(ov, SObj)):
+        wild = Or(l.signal_type == "signal-anything", l.signal_type == "signal-everything")
+        sep = wild if flagged else Not(wild)
+        if flagged and isinstance(r, SObj):
+            sep = And(sep, md.get("scalar_signal_id") is r.source_id)
+    else:
+        sep = not md
     return And(isa(n, "IRDecider"), n.test_op is a.test_op, n.left is a.left, n.right is a.right, n.output_value is a.output_value,
-               n.copy_count_from_input is a.copy_count_from_input, n.output_type is a.output_type, len(n.conditions) == 0, _ref_ok(res, n, a.output_type))
+               n.copy_count_from_input is a.copy_count_from_input, n.output_type is a.output_type, len(n.conditions) == 0, _ref_ok(res, n, a.output_type), sep)
 
 
 def _multi_post(a, res):
@@ -110,7 +122,8 @@ CONTRACTS += [
              ensures=[("one IRArith with this operator and these operands on this type; the reference points to it", _arith_post)], uses=_U, properties=("C01", "C02"), min_obligations=1, no_replay=True),
     Contract(qualname=IRB + "decider", params={"self": _SELF_B, "test_op": ty.Str, "left": _VR, "right": _VR, "output_value": _VR, "output_type": ty.Str,
                                                "source_ast": ty.TConcrete(None), "copy_count_from_input": ty.Bool}, requires=_RESET,
-             ensures=[("one single-condition IRDecider with this comparison, output value and mode on this type; the reference points to it", _decider_post)],
+             ensures=[("one single-condition IRDecider with this comparison, output value and mode on this type; the reference points to it; flagged for wire separation exactly when a wildcard "
+                       "(any / all) stands next to another signal", _decider_post)],
              uses=_U, properties=("C01", "C02"), min_obligations=1, no_replay=True),
     Contract(qualname=IRB + "decider_multi",
              params={"self": _SELF_B, "conditions": ty.TTuple((ty.TTuple((ty.Str, _VR, _VR)), ty.TTuple((ty.Str, _VR, _VR)), ty.TTuple((ty.Str, _VR, _VR)))),
@@ -388,8 +401,11 @@ def locked_colors_arg_sets():
             place("each_cmp", "decider-combinator", needs_wire_separation=True, left_operand="signal-each", right_operand="signal-T", right_operand_signal_id=SignalRef("signal-T", "tsrc"))
             expected[("tsrc", "signal-T")] = "green"
         if "wildcard_cmp" in on:
-            place("all_cmp", "decider-combinator", needs_wire_separation=True, left_operand="signal-everything", right_operand="signal-U", right_operand_signal_id=SignalRef("signal-U", "usrc"))
+            place("all_cmp", "decider-combinator", needs_wire_separation=True, left_operand="signal-everything", right_operand="signal-U", right_operand_signal_id=SignalRef("signal-U", "usrc"),
+                  output_value_signal_id=SignalRef("signal-V", "vsrc"))
+            usage["vsrc"] = _Usage("signal-V")
             expected[("usrc", "signal-U")] = "green"
+            expected[("vsrc", "signal-V")] = "green"   # the copied value stays off the wildcard's wire too
         if "bundle_gate" in on:
             place("gate", "decider-combinator", needs_wire_separation=True, left_operand="signal-G", right_operand=0,
                   output_value_signal_id=BundleRef({"signal-A"}, "merged_bundle"))
